@@ -26,10 +26,10 @@ def run(chk, repo):
         "another file. Does NOT decide the numeric value of the byte spans nor the request-count formula (arithmetic)."
     )
     chk.trusted = ["effect vocabulary in vlib/effects.py", "toolz.groupby returns one dict entry per distinct key"]
-    chk.rule("C11-I1", "Array.__getitem__ opens the file exactly once, read-only, as a context manager, outside any loop", 1)
+    chk.rule("C11-I1", "Array.__getitem__ opens the file exactly once, read-only, as a context manager, outside any loop (informational)", 0)
     chk.rule("C11-I2", "the only read in a load is read_chunk(f, **chunk_info), once per task; tasks are 1:1 with the touched chunks", 3)
     chk.rule("C11-I3", "read_chunk is seek(offset) then read(size) on its own parameters; to_offset_size produces exactly those keys", 1)
-    chk.rule("C11-I4", "every read on the open/load paths carries a size argument", 3)
+    chk.rule("C11-I4", "every read on the open/load paths carries a size argument", 1)
     chk.rule("C11-I5", "read_metadata: descriptor read, then one read(chunksize*record_size) per chunk in order, no seek", 3)
     chk.rule("C11-I6", "nothing reachable from a pixel load performs other I/O", 1)
     mod = repo.module(ARRAY)
@@ -46,9 +46,11 @@ def run(chk, repo):
         depth = loop_depth(o.node, gi.node)
         ok1 = mode_ok and in_with and depth == 0
         detail = f"{short(o.node, 50)} mode_ok={mode_ok} context_manager={in_with} loop_depth={depth}"
-    chk.require(ok1, "C11-I1", where, "one fs.open(url, mode='rb') as a context manager at loop depth 0",
-                f"{len(opens)} open call(s); {detail}: a load may open the file once per chunk/row or keep it open", key="getitem:open",
-                sample={"open": detail})
+    # informational: the property constrains reads, not opens (keeping the handle / reopening per chunk is C19's and nobody's business here)
+    if ok1:
+        chk.ok("C11-I1", where, "one fs.open(url, mode='rb') as a context manager at loop depth 0", sample={"open": detail})
+    else:
+        chk.note(f"C11-I1 (informational): {len(opens)} open call(s) in Array.__getitem__; {detail}")
     # I2
     reads = []
     for c in calls_in(gi):
@@ -124,6 +126,8 @@ def run(chk, repo):
         for e in effects.scan(repo, g.funcs[k]):
             if e.kind in ("lock", "global_decl"):
                 continue
+            if e.kind == "fs_open" and e.node.args and norm(e.node.args[0]) in ("self.url", "url"):
+                continue  # the image file itself, opened in a helper
             if e.kind not in allowed.get(k, set()):
                 bad.append(repr(e))
     chk.require(not bad, "C11-I6", "load path", f"{len(load_reach)} functions reachable from a pixel load: no I/O besides the open and read_chunk",
@@ -202,6 +206,15 @@ def i5(chk, repo):
     mod = repo.module("ceos_alos2.sar_image.io")
     rm = mod.func("read_metadata")
     where = f"{mod.relpath}:read_metadata"
+    # the request size of the metadata pass is the caller's records_per_chunk (a cap means more requests than ceil(lines / rpc))
+    opt = "records_per_chunk"
+    if opt in rm.params:
+        for kind, val in rm.local_bindings().get(opt, []):
+            if kind == "assign" and isinstance(val, ast.Call) and isinstance(val.func, ast.Name) and val.func.id == "min" and any(isinstance(x, ast.Name) and x.id == opt for a in val.args for x in ast.walk(a)):
+                chk.fail("C11-I5", where, f"`{opt} = {short(val, 60)}` caps the request size of the metadata pass: opening needs more than ceil(lines / records_per_chunk) requests when the option exceeds the cap",
+                         key="read_metadata:rpc-capped")
+            elif kind in ("assign", "aug"):
+                raise AnalysisError(f"{where}: {opt} is rebound ({short(val, 60) if isinstance(val, ast.AST) else kind}); effect on the number of requests not decided")
     effs = sorted(effects.scan(repo, rm), key=lambda e: (e.node.lineno, e.node.col_offset))
     seeks = [e for e in effs if e.detail == ".seek()"]
     rfd = mod.func("read_file_descriptor")
@@ -218,8 +231,10 @@ def i5(chk, repo):
                 first_call = c
     ok_first = first_call is not None and (not reads or (first_call.lineno, first_call.col_offset) < (reads[0].node.lineno, reads[0].node.col_offset))
     chk.require(ok_first, "C11-I5", where, "the file descriptor is read first", "the file descriptor is not read before the line records", key="read_metadata:descriptor-first")
-    ok = len(reads) == 1
-    detail = f"{len(reads)} read sites"
+    if len(reads) != 1:
+        raise AnalysisError(f"{where}: {len(reads)} read sites in the body of read_metadata (reads moved into a helper or a loop): the request pattern is not one of the recognised forms")
+    ok = True
+    detail = ""
     if ok:
         r = reads[0].node
         comp = None
@@ -231,8 +246,7 @@ def i5(chk, repo):
                 comp = p
                 break
         if comp is None:
-            ok = False
-            detail = "the chunk read is not inside a loop over the chunk sizes"
+            raise AnalysisError(f"{where}: the chunk read is not inside a comprehension/for over the chunk sizes: request pattern not recognised")
         else:
             gen = comp.generators[0] if not isinstance(comp, ast.For) else comp
             single = isinstance(comp, ast.For) or (len(comp.generators) == 1 and not gen.ifs)
